@@ -274,7 +274,7 @@ def xff30_decode(h):
     h.cover("xFF30 decode returns a message")
 
 
-def version_decode_any_length(h, mod, mk_subheader, sub_id):
+def version_decode_any_length(h, mod, mk_subheader, sub_id, sep=","):
     """Unbounded companion of decode-vendor-reading for the console-version decoder (same code shape in both
     generations): any payload length, any text length.  The list of versions is `text.split(",")` of exactly the
     announced text - kept abstract (pyvc SplitList: the pieces of that very view at that separator)."""
@@ -296,10 +296,10 @@ def version_decode_any_length(h, mod, mk_subheader, sub_id):
     h.oblige("an announced text longer than the data is rejected, never truncated", 2 + n <= mlen)
     vs = h.attr(m, "versions")
     if h.branch(n == 0):
-        h.oblige("no text: the single empty version (what ''.split(',') is)", h.eq(vs, [""]) if not isinstance(vs, SplitList) else h.length(vs.view) == 0)
+        h.oblige("no text: the single empty version (what ''.split(sep) is)", h.eq(vs, [""]) if not isinstance(vs, SplitList) else h.length(vs.view) == 0)
     else:
-        h.oblige("versions = the announced text - exactly the Byte4 bytes after the length byte - split at ','",
-                 isinstance(vs, SplitList) and vs.sep == "," and vs.maxsplit == -1 and bool(h.it.path.branch(_is_view(h, vs.view, buf, 2, n)) is True))
+        h.oblige("versions = the announced text - exactly the Byte4 bytes after the length byte - split at the generation's separator (AT5 ',', AT4 '|')",
+                 And(_is_view(h, vs.view, buf, 2, n), vs.sep == sep, vs.maxsplit == -1) if isinstance(vs, SplitList) else False)
     h.oblige("remaining = what follows the announced text", _is_view(h, h.attr(r.value, "remaining"), buf, 2 + n, mlen - 2 - n))
     h.cover("version message decoded")
 
